@@ -816,6 +816,8 @@ SITES = {
     "C09": ["eval_rules_file"],
     "C04": ["eval_rules_file", "memo_sites"],
     "C06": ["evaluate_against_data_input", "evaluate_rule"],
+    "C12": ["evaluate_against_data_input", "evaluate_rule"],        # `the run reports failure iff some pair does`
+    "C07": ["evaluate_against_data_input", "evaluate_rule"],
     "C01": ["eval_rule", "eval_when_condition_block"],
     "C08": ["index_sites"],
     "C03": ["gac_negation"],
